@@ -323,7 +323,7 @@ def encoder(prop, tier, seed, replay):
         replay_cmd=lambda b, cf, out, rep: "%s/drive-codec buffers --cases %s --out %s" % (b, cf, out),
         trace_spec=("TraceEncoder.tla", "TraceEncoder.cfg"),
         case_of=lambda r: {"lens": r["lens"], "attrs": r.get("attrs", []), "use_attrs": r.get("use_attrs", False),
-                           "buf": r["buf"], "prefill": r["prefill"]},
+                           "buf": r["buf"], "prefill": r["prefill"], "ctx": r.get("ctx", 0)},
         rule="one record = one MessageEncoder::encode call for a message given by its attribute value "
              "lengths into a buffer of a given length and prefill: every buffer length 0..needed+8 x 3 "
              "prefills for small messages; buffers around needed / 64 KiB for messages whose body sits at, "
@@ -331,7 +331,7 @@ def encoder(prop, tier, seed, replay):
              "length/prefill judged by TLC against Encoder!SpecResult; non-trivial = buffer at least a "
              "header; distinct by (lens, buf, prefill)",
         nontrivial=lambda r: r["buf"] >= 20,
-        sample_of=lambda r: {k: r[k] for k in ("lens", "buf", "prefill", "res", "size", "tail_ok", "same")},
+        sample_of=lambda r: {k: r[k] for k in ("lens", "buf", "prefill", "ctx", "res", "size", "tail_ok", "same")},
         builds=("debug",) if tier == "quick" else ("debug", "release"))
 
 
